@@ -58,10 +58,49 @@ theorem body_nohang (F : UnwindFacts) (cf : CallFn) (h : NoHang cf) :
   | setRes n k ih => intro a anc self w hw; simp only [execBodyY]; exact ih _ _ _ _ hw
   | setOuter n k ih => intro a anc self w hw; simp only [execBodyY]; exact ih _ _ _ _ hw
 
-/-- the deferred calls of an unlocked frame never block: the wrapper of a held literal finds the lock free -/
-theorem entries_nohang (cf : CallFn) (h : NoHang cf) (hk : KeepsLock cf) :
-    ∀ (es : List Entry) (self : Frame) (w : World), self.locked = false → w.hung = false →
+/-- the deferred calls of a frame never block, locked or not: nothing in the loop takes a frame lock (the wrapper of
+    a held literal does not lock the defining frame any more — `closureLocksDefiner = false`) -/
+theorem entries_nohang (cf : CallFn) (h : NoHang cf) :
+    ∀ (es : List Entry) (self : Frame) (w : World), w.hung = false →
       (runEntriesY facts cf es self w).2.2.hung = false := by
+  intro es
+  induction es with
+  | nil => intro self w hw; exact hw
+  | cons e es ih =>
+    intro self w hw
+    obtain ⟨callee, arg⟩ := e
+    cases callee with
+    | bin s => simp only [runEntriesY]; exact ih self _ hw
+    | del t => simp only [runEntriesY]; exact ih self _ hw
+    | bins s ns sp => simp only [runEntriesY]; exact ih self _ hw
+    | pan v => simp only [runEntriesY, facts_deferredProtected, if_true]; exact ih _ _ hw
+    | src c =>
+      simp only [runEntriesY, facts_deferredProtected, if_true]
+      have hc := h c (arg.get self.res) self w hw
+      generalize cf c (arg.get self.res) self w = r at hc ⊢
+      obtain ⟨sig, s', rr, w'⟩ := r
+      simp only at hc
+      cases sig with
+      | normal => exact ih s' w' hc
+      | panic q => exact ih _ w' hc
+      | fuel => exact hc
+    | held c =>
+      simp only [runEntriesY, facts_deferredProtected, facts_closureLocksDefiner, if_true, Bool.false_and,
+        Bool.false_eq_true, if_false]
+      have hc := h c (arg.get self.res) (heldAnc facts self) w hw
+      generalize cf c (arg.get self.res) (heldAnc facts self) w = r at hc ⊢
+      obtain ⟨sig, s', rr, w'⟩ := r
+      simp only at hc
+      cases sig with
+      | normal => exact ih _ w' hc
+      | panic q => exact ih _ w' hc
+      | fuel => exact hc
+
+/-- the same for the statement order of runCfg's deferred function alone (frame lock released around the loop),
+    whatever the wrapper of a held literal does: either repair of F06-2 is enough -/
+theorem entries_nohang_unlocked (F : UnwindFacts) (cf : CallFn) (h : NoHang cf) (hk : KeepsLock cf) :
+    ∀ (es : List Entry) (self : Frame) (w : World), self.locked = false → w.hung = false →
+      (runEntriesY F cf es self w).2.2.hung = false := by
   intro es
   induction es with
   | nil => intro self w _ hw; exact hw
@@ -72,9 +111,13 @@ theorem entries_nohang (cf : CallFn) (h : NoHang cf) (hk : KeepsLock cf) :
     | bin s => simp only [runEntriesY]; exact ih self _ hl hw
     | del t => simp only [runEntriesY]; exact ih self _ hl hw
     | bins s ns sp => simp only [runEntriesY]; exact ih self _ hl hw
-    | pan v => simp only [runEntriesY, facts_deferredProtected, if_true]; exact ih _ _ hl hw
+    | pan v =>
+      simp only [runEntriesY]
+      split
+      · exact ih _ _ hl hw
+      · exact hw
     | src c =>
-      simp only [runEntriesY, facts_deferredProtected, if_true]
+      simp only [runEntriesY]
       have hc := h c (arg.get self.res) self w hw
       have hkc := hk c (arg.get self.res) self w
       generalize cf c (arg.get self.res) self w = r at hc hkc ⊢
@@ -82,21 +125,35 @@ theorem entries_nohang (cf : CallFn) (h : NoHang cf) (hk : KeepsLock cf) :
       simp only at hc hkc
       cases sig with
       | normal => exact ih s' w' (hkc.trans hl) hc
-      | panic q => exact ih _ w' (hkc.trans hl) hc
+      | panic q =>
+        simp only
+        split
+        · exact ih _ w' (hkc.trans hl) hc
+        · exact hc
       | fuel => exact hc
     | held c =>
-      obtain ⟨sd, sr, sres, sl⟩ := self
-      simp only at hl
-      subst hl
-      simp only [runEntriesY, facts_deferredProtected, facts_closureLocksDefiner, if_true, heldAnc_facts,
-        heldBack_facts, Bool.true_and, Bool.false_eq_true, if_false]
-      have hc := h c (arg.get sres) ⟨sd, none, sres, false⟩ w hw
-      generalize cf c (arg.get sres) ⟨sd, none, sres, false⟩ w = r at hc ⊢
-      obtain ⟨sig, s', rr, w'⟩ := r
-      simp only at hc
+      simp only [runEntriesY]
+      have hc := h c (arg.get self.res) (heldAnc F self) w hw
+      have hkc := hk c (arg.get self.res) (heldAnc F self) w
+      generalize cf c (arg.get self.res) (heldAnc F self) w = r at hc hkc ⊢
+      obtain ⟨sig, anc', rr, w'⟩ := r
+      simp only at hc hkc
+      have hb : (heldBack F self anc').locked = false := by
+        unfold heldBack heldAnc at *
+        split
+        · exact hl
+        · rename_i hcl
+          simp only [hcl, Bool.false_eq_true, if_false] at hkc
+          exact hkc.trans hl
       cases sig with
-      | normal => exact ih _ w' rfl hc
-      | panic q => exact ih _ w' rfl hc
+      | normal =>
+        simp only [hb, Bool.and_false, Bool.false_eq_true, if_false]
+        exact ih _ w' hb hc
+      | panic q =>
+        simp only
+        split
+        · exact ih _ w' hb hc
+        · exact hc
       | fuel => exact hc
 
 theorem execFnY_keepsLock (F : UnwindFacts) (n : Nat) : KeepsLock (execFnY F n) :=
@@ -118,9 +175,9 @@ theorem execFnY_nohang : ∀ n, NoHang (execFnY facts n) := by
     | fuel => exact hb
     | normal =>
       simp only [finishY_out]
-      exact entries_nohang (execFnY facts n) ih (execFnY_keepsLock facts n) self.deferred _ w' rfl hb
+      exact entries_nohang (execFnY facts n) ih self.deferred _ w' hb
     | panic v =>
       simp only [finishY_out]
-      exact entries_nohang (execFnY facts n) ih (execFnY_keepsLock facts n) self.deferred _ w' rfl hb
+      exact entries_nohang (execFnY facts n) ih self.deferred _ w' hb
 
 end YaegiVerif.Unwind
